@@ -127,3 +127,10 @@ package route
 //@ contract route.getEventTime#safety props C28
 //@   arith wraps
 //@   modifies nothing
+
+// A batch body's array header must not be trusted for the allocation size: the
+// allocation is bounded by the number of bytes still to be read.
+//@ contract route.(*batchedEvents).UnmarshalMsg props C28 havoc
+//@   assert only make-size make-bounded
+//@   assert makebound len(bts)
+//@   requires b != nil
